@@ -103,7 +103,13 @@ func (o *scalarOperator) Next(ctx context.Context) ([]model.StepVector, error) {
 		return nil, err
 	}
 	if in == nil {
-		return nil, nil
+		// The scalar operand is evaluated for every step, as in the reference
+		// engine, so that an error in it is not lost.
+		scalarIn, err := o.scalar.Next(ctx)
+		if err != nil {
+			return nil, err
+		}
+		return nil, drain(ctx, o.scalar, scalarIn)
 	}
 	o.seriesOnce.Do(func() { err = o.loadSeries(ctx) })
 	if err != nil {
